@@ -23,7 +23,8 @@ def sh(cmd, cwd=None, env=None, timeout=900):
 
 def refresh(name):
     d = os.path.join("/verif/seeded", name)
-    patch = open(os.path.join(d, "patch.diff")).read()
+    orig = os.path.join(d, "patch.orig.diff")          # re-based before: start again from what the sub-agent wrote
+    patch = open(orig if os.path.exists(orig) else os.path.join(d, "patch.diff")).read()
     files = re.findall(r"^diff --git a/(\S+) b/\S+\nindex ([0-9a-f]+)\.\.", patch, re.M)
     if not files:
         return "%s: no index lines in the patch (not made by git diff)" % name
